@@ -169,8 +169,8 @@ ExpWait(x, side) ==
     LET e == Expected(x) IN
     IF side = "T" THEN (e.t.recvLto + 10) * 13560
     ELSE IF 4096 * Pow2(e.wt) <= (e.i.recvLto + 10) * 13560 THEN 4096 * Pow2(e.wt) ELSE (e.i.recvLto + 10) * 13560
-\* the link timeout a side announced bounds its own turn-around time (microseconds)
-ExpTurn(x, side) == 1000 * (IF side = "I" THEN x.ltoI ELSE x.ltoT)
+\* the link timeout a side announced bounds its own turn-around time (carrier cycles)
+ExpTurn(x, side) == 13560 * (IF side = "I" THEN x.ltoI ELSE x.ltoT)
 
 Next == \/ Activate
         \/ \E side \in {"I", "T"} : \E m \in {128, LinkMiu(c, IF side = "I" THEN "TI" ELSE "IT")} : Announce(side, 32, m)
